@@ -1,32 +1,634 @@
-//! Cache (C16) and Access/Map (C17) operations. (Filled in after the core operations.)
-use crate::interp::Ctx;
-use crate::world::World;
+//! Cache (C16) and Access/Map (C17) operations, their bookkeeping for the ledger, their
+//! scenario generators and their post-run checks.
+
+#![allow(deprecated)]
+
+use crate::arena::{self, Inner, Payload};
+use crate::interp::{self, guarded, rec_begin, rec_end, Ctx, OP_ACCESS_LOAD, OP_CACHE_LOAD, OP_HANDLE};
+use crate::program::*;
+use crate::scen::{Case, RunCfg};
+use crate::world::*;
+use arc_swap::access::{Access, AccessConvert, Constant, DynAccess, Map};
+use arc_swap::cache::{Access as CacheAccess, Cache, MapCache};
+use arc_swap::strategy::Strategy;
+use arc_swap::{ArcSwapAny, RefCnt};
 use std::collections::BTreeMap;
+use std::ops::Deref;
+use std::rc::Rc;
+use verif_rt::core::{self as rt, Rng};
 
-pub struct CacheEntry;
-pub struct AccEntry;
+static ZERO_PAYLOAD: Payload = Payload {
+    val: 0,
+    inner: Inner { val: 0 },
+};
 
-pub fn op_cache_new(_ctx: Ctx, _c: u8, _k: u8) {}
-pub fn op_cache_load(_ctx: Ctx, _k: u8) {}
-pub fn op_cache_clone(_ctx: Ctx, _k: u8, _k2: u8) {}
-pub fn op_cache_drop(_ctx: Ctx, _k: u8) {}
-pub fn op_acc_load(_ctx: Ctx, _c: u8, _depth: u8, _dynamic: bool, _a: u8) {}
-pub fn op_acc_check(_ctx: Ctx, _a: u8) {}
-pub fn op_acc_drop(_ctx: Ctx, _a: u8) {}
-pub fn final_drop_extras(_ctx: Ctx) {}
-pub fn extra_owner_of(_w: &World, _uid: u32) -> Option<String> {
+/// Projections on the stored pointer types.
+pub trait Proj: PtrT {
+    fn payload_ref(&self) -> &Payload;
+}
+impl Proj for SA {
+    fn payload_ref(&self) -> &Payload {
+        self.payload()
+    }
+}
+impl Proj for SB {
+    fn payload_ref(&self) -> &Payload {
+        self.payload()
+    }
+}
+impl Proj for Option<SA> {
+    fn payload_ref(&self) -> &Payload {
+        match self {
+            Some(x) => x.payload(),
+            None => &ZERO_PAYLOAD,
+        }
+    }
+}
+
+fn p_val<T: Proj>(t: &T) -> &u64 {
+    &t.payload_ref().val
+}
+fn p_payload<T: Proj>(t: &T) -> &Payload {
+    t.payload_ref()
+}
+fn p_inner(p: &Payload) -> &Inner {
+    &p.inner
+}
+fn p_inner_val(i: &Inner) -> &u64 {
+    &i.val
+}
+fn p_payload_val(p: &Payload) -> &u64 {
+    &p.val
+}
+
+/// A shared handle to a container that derefs to the concrete `ArcSwapAny` (what an
+/// `Arc<ArcSwap<..>>` is in a real program).
+pub struct ContRef<T: RefCnt, S: Strategy<T>> {
+    rc: Rc<Cont>,
+    p: *const ArcSwapAny<T, S>,
+}
+impl<T: RefCnt, S: Strategy<T>> Clone for ContRef<T, S> {
+    fn clone(&self) -> Self {
+        ContRef {
+            rc: self.rc.clone(),
+            p: self.p,
+        }
+    }
+}
+impl<T: RefCnt, S: Strategy<T>> Deref for ContRef<T, S> {
+    type Target = ArcSwapAny<T, S>;
+    fn deref(&self) -> &ArcSwapAny<T, S> {
+        let _ = &self.rc;
+        unsafe { &*self.p }
+    }
+}
+
+fn cont_ref<T: RefCnt, S: Strategy<T>>(rc: &Rc<Cont>, c: &ArcSwapAny<T, S>) -> ContRef<T, S> {
+    ContRef {
+        rc: rc.clone(),
+        p: c as *const _,
+    }
+}
+
+// ---------------------------------------------------------------------------------------------
+// Cache
+// ---------------------------------------------------------------------------------------------
+
+pub trait CacheLike {
+    /// Performs `load` on the cache and identifies what it returned: (uid, addr).
+    fn load_id(&mut self) -> (u32, usize);
+    fn clone_box(&self) -> Box<dyn CacheLike>;
+}
+
+struct PlainCache<T: Proj, S: Strategy<T> + 'static>(Cache<ContRef<T, S>, T>);
+impl<T: Proj, S: Strategy<T> + 'static> CacheLike for PlainCache<T, S> {
+    fn load_id(&mut self) -> (u32, usize) {
+        let v = self.0.load();
+        (v.uid_touch(), v.addr())
+    }
+    fn clone_box(&self) -> Box<dyn CacheLike> {
+        Box::new(PlainCache(self.0.clone()))
+    }
+}
+
+struct MappedCache<T: Proj, S: Strategy<T> + 'static>(MapCache<ContRef<T, S>, T, fn(&T) -> &u64>);
+impl<T: Proj, S: Strategy<T> + 'static> CacheLike for MappedCache<T, S> {
+    fn load_id(&mut self) -> (u32, usize) {
+        let v: u64 = *CacheAccess::load(&mut self.0);
+        if v == 0 {
+            return (0, 0);
+        }
+        let uid = arena::uid_by_val(v);
+        let addr = arena::obj_info(uid).map(|o| o.addr).unwrap_or(0);
+        (uid, addr)
+    }
+    fn clone_box(&self) -> Box<dyn CacheLike> {
+        Box::new(MappedCache(self.0.clone()))
+    }
+}
+
+pub struct CacheEntry {
+    pub c: Box<dyn CacheLike>,
+    pub cont: u8,
+    pub last_uid: u32,
+    pub last_addr: usize,
+}
+
+fn kslot(ctx: Ctx, k: u8) -> usize {
+    ctx.th * 4 + (k as usize % 4)
+}
+
+fn bump(w: &mut World, k: &str) {
+    *w.extra_counts.entry(k.to_string()).or_insert(0) += 1;
+}
+
+pub fn op_cache_new(ctx: Ctx, c: u8, k: u8) {
+    let Some(cont) = interp::get_cont(c) else { return };
+    op_cache_drop(ctx, k);
+    let mapped = k % 2 == 1;
+    rt::op_begin(OP_CACHE_LOAD);
+    let r = rec_begin();
+    fn mk<T: Proj, S: Strategy<T> + 'static>(rc: &Rc<Cont>, cv: &ArcSwapAny<T, S>, mapped: bool) -> Box<dyn CacheLike> {
+        let cache = Cache::new(cont_ref(rc, cv));
+        if mapped {
+            Box::new(MappedCache(cache.map(p_val::<T> as fn(&T) -> &u64)))
+        } else {
+            Box::new(PlainCache(cache))
+        }
+    }
+    // Cache::new performs a load_full; what it cached becomes visible with the first load.
+    let made = guarded("Cache::new", || crate::with_cont!(&*cont, cv, _wr => mk(&cont, cv, mapped)));
+    if let Some(mut cb) = made {
+        let got = guarded("Cache::load", || cb.load_id());
+        if let Some((uid, addr)) = got {
+            rec_end(ctx, r, c, CallKind::CacheLoad, (0, 0), 0, (uid, addr), true);
+            w(|w| {
+                w.caches[kslot(ctx, k)] = Some(CacheEntry {
+                    c: cb,
+                    cont: c,
+                    last_uid: uid,
+                    last_addr: addr,
+                });
+                bump(w, "cache_new");
+            });
+        }
+    }
+    rt::op_end();
+}
+
+pub fn op_cache_load(ctx: Ctx, k: u8) {
+    let e = w(|w| w.caches[kslot(ctx, k)].take());
+    let Some(mut e) = e else { return };
+    // the cache keeps owning its value while it is out of the table
+    w(|w| w.inflight_cache_uids.push(e.last_uid));
+    rt::op_begin(OP_CACHE_LOAD);
+    let r = rec_begin();
+    let got = guarded("Cache::load", || e.c.load_id());
+    w(|w| {
+        let u = e.last_uid;
+        if let Some(p) = w.inflight_cache_uids.iter().position(|x| *x == u) {
+            w.inflight_cache_uids.remove(p);
+        }
+    });
+    if let Some((uid, addr)) = got {
+        rec_end(ctx, r, e.cont, CallKind::CacheLoad, (0, 0), 0, (uid, addr), true);
+        w(|w| {
+            bump(w, "cache_loads");
+            if uid != e.last_uid {
+                bump(w, "cache_reloads");
+            }
+        });
+        e.last_uid = uid;
+        e.last_addr = addr;
+    }
+    w(|w| w.caches[kslot(ctx, k)] = Some(e));
+    rt::op_end();
+}
+
+pub fn op_cache_clone(ctx: Ctx, k: u8, k2: u8) {
+    if kslot(ctx, k) == kslot(ctx, k2) {
+        return;
+    }
+    op_cache_drop(ctx, k2);
+    let e = w(|w| w.caches[kslot(ctx, k)].take());
+    let Some(e) = e else { return };
+    w(|w| w.inflight_cache_uids.push(e.last_uid));
+    rt::op_begin(OP_HANDLE);
+    let c2 = guarded("Cache::clone", || e.c.clone_box());
+    w(|w| {
+        let u = e.last_uid;
+        if let Some(p) = w.inflight_cache_uids.iter().position(|x| *x == u) {
+            w.inflight_cache_uids.remove(p);
+        }
+        if let Some(c2) = c2 {
+            w.caches[kslot(ctx, k2)] = Some(CacheEntry {
+                c: c2,
+                cont: e.cont,
+                last_uid: e.last_uid,
+                last_addr: e.last_addr,
+            });
+            bump(w, "cache_clones");
+        }
+        w.caches[kslot(ctx, k)] = Some(e);
+    });
+    rt::op_end();
+}
+
+pub fn op_cache_drop(ctx: Ctx, k: u8) {
+    let e = w(|w| w.caches[kslot(ctx, k)].take());
+    if let Some(e) = e {
+        rt::op_begin(OP_HANDLE);
+        let _ = guarded("drop(Cache)", move || drop(e));
+        rt::op_end();
+    }
+}
+
+// ---------------------------------------------------------------------------------------------
+// Access / Map
+// ---------------------------------------------------------------------------------------------
+
+pub struct AccEntry {
+    pub g: Box<dyn Deref<Target = u64>>,
+    pub val: u64,
+    pub uid: u32,
+    pub addr: usize,
+    pub cont: u8,
+    pub writes_at_load: u64,
+}
+
+fn aslot(ctx: Ctx, a: u8) -> usize {
+    ctx.th * 4 + (a as usize % 4)
+}
+
+fn total_writes(w: &World) -> u64 {
+    w.writes_done.iter().sum()
+}
+
+fn acc_load_static<T: Proj, S: Strategy<T> + 'static>(rc: &Rc<Cont>, cv: &ArcSwapAny<T, S>, depth: u8) -> Box<dyn Deref<Target = u64>> {
+    let cr = cont_ref(rc, cv);
+    match depth % 3 {
+        0 => {
+            let m = Map::new(cr, p_val::<T> as fn(&T) -> &u64);
+            Box::new(Access::load(&m))
+        }
+        1 => {
+            let m1 = Map::new(cr, p_payload::<T> as fn(&T) -> &Payload);
+            let m2 = Map::new(m1, p_payload_val as fn(&Payload) -> &u64);
+            Box::new(Access::load(&m2))
+        }
+        _ => {
+            let m1 = Map::new(cr, p_payload::<T> as fn(&T) -> &Payload);
+            let m2 = Map::new(m1, p_inner as fn(&Payload) -> &Inner);
+            let m3 = Map::new(m2, p_inner_val as fn(&Inner) -> &u64);
+            Box::new(Access::load(&m3))
+        }
+    }
+}
+
+fn acc_load_dyn<T: Proj, S: Strategy<T> + 'static>(rc: &Rc<Cont>, cv: &ArcSwapAny<T, S>, depth: u8) -> Box<dyn Deref<Target = u64>> {
+    let cr = cont_ref(rc, cv);
+    let boxed: Box<dyn DynAccess<u64>> = match depth % 3 {
+        0 => Box::new(Map::new(cr, p_val::<T> as fn(&T) -> &u64)),
+        1 => {
+            let m1 = Map::new(cr, p_payload::<T> as fn(&T) -> &Payload);
+            Box::new(Map::new(m1, p_payload_val as fn(&Payload) -> &u64))
+        }
+        _ => {
+            let m1 = Map::new(cr, p_payload::<T> as fn(&T) -> &Payload);
+            let m2 = Map::new(m1, p_inner as fn(&Payload) -> &Inner);
+            Box::new(Map::new(m2, p_inner_val as fn(&Inner) -> &u64))
+        }
+    };
+    if depth % 2 == 0 {
+        // through AccessConvert back into a static Access
+        let conv = AccessConvert(boxed);
+        Box::new(Access::load(&conv))
+    } else {
+        Box::new(DynAccess::load(&*boxed))
+    }
+}
+
+pub fn op_acc_load(ctx: Ctx, c: u8, depth: u8, dynamic: bool, a: u8) {
+    let Some(cont) = interp::get_cont(c) else { return };
+    op_acc_drop(ctx, a);
+    rt::op_begin(OP_ACCESS_LOAD);
+    let r = rec_begin();
+    let res = guarded("Access::load", || {
+        crate::with_cont!(&*cont, cv, _wr => {
+            if dynamic { acc_load_dyn(&cont, cv, depth) } else { acc_load_static(&cont, cv, depth) }
+        })
+    });
+    if let Some(g) = res {
+        let val = **g;
+        let uid = if val == 0 { 0 } else { arena::uid_by_val(val) };
+        let addr = arena::obj_info(uid).map(|o| o.addr).unwrap_or(0);
+        rec_end(ctx, r, c, CallKind::AccessLoad, (0, 0), 0, (uid, addr), true);
+        w(|w| {
+            let wr = total_writes(w);
+            w.accs[aslot(ctx, a)] = Some(AccEntry {
+                g,
+                val,
+                uid,
+                addr,
+                cont: c,
+                writes_at_load: wr,
+            });
+            bump(w, "acc_loads");
+            if dynamic {
+                bump(w, "acc_loads_dynamic");
+            }
+        });
+    }
+    rt::op_end();
+}
+
+pub fn op_acc_check(ctx: Ctx, a: u8) {
+    let e = w(|w| w.accs[aslot(ctx, a)].take());
+    let Some(e) = e else { return };
+    w(|w| w.inflight_acc.push((e.uid, e.addr)));
+    let now = **e.g;
+    w(|w| {
+        w.inflight_acc.pop();
+        bump(w, "acc_checks");
+        if total_writes(w) > e.writes_at_load {
+            bump(w, "acc_guard_outlived_store");
+        }
+    });
+    if now != e.val && !rt::is_aborting() {
+        rt::fail(
+            "access",
+            format!(
+                "projection guard loaded value {} (uid={}) but now dereferences to {}",
+                e.val, e.uid, now
+            ),
+        );
+        std::mem::forget(e);
+        return;
+    }
+    w(|w| w.accs[aslot(ctx, a)] = Some(e));
+}
+
+pub fn op_acc_drop(ctx: Ctx, a: u8) {
+    let e = w(|w| w.accs[aslot(ctx, a)].take());
+    if let Some(e) = e {
+        let now = **e.g;
+        if now != e.val && !rt::is_aborting() {
+            rt::fail(
+                "access",
+                format!(
+                    "projection guard loaded value {} (uid={}) but dereferences to {} before its drop",
+                    e.val, e.uid, now
+                ),
+            );
+            std::mem::forget(e);
+            return;
+        }
+        w(|w| {
+            if total_writes(w) > e.writes_at_load {
+                bump(w, "acc_guard_outlived_store");
+            }
+        });
+        rt::op_begin(interp::OP_GUARD_DROP);
+        let _ = guarded("drop(projection guard)", move || drop(e));
+        rt::op_end();
+    }
+}
+
+/// Final phase (single-threaded): drop caches and projection guards, and compare static with
+/// dynamic dispatch and check `Constant`.
+pub fn final_drop_extras(ctx: Ctx) {
+    // static vs dynamic dispatch on every live container, every depth: identical results
+    let n = w(|w| w.conts.len());
+    let wanted = w(|w| w.extra_counts.contains_key("acc_loads") || w.prog_wants_access);
+    if wanted {
+        for c in 0..n {
+            let Some(cont) = interp::get_cont(c as u8) else { continue };
+            for depth in 0..3u8 {
+                rt::op_begin(OP_ACCESS_LOAD);
+                let a = guarded("Access::load", || crate::with_cont!(&*cont, cv, _wr => acc_load_static(&cont, cv, depth)));
+                let b = guarded("Access::load(dyn)", || crate::with_cont!(&*cont, cv, _wr => acc_load_dyn(&cont, cv, depth)));
+                let b2 = guarded("Access::load(dyn)", || crate::with_cont!(&*cont, cv, _wr => acc_load_dyn(&cont, cv, depth + 3)));
+                if let (Some(a), Some(b), Some(b2)) = (a, b, b2) {
+                    let (x, y, z) = (**a, **b, **b2);
+                    w(|w| bump(w, "acc_static_dynamic_compared"));
+                    if x != y || x != z {
+                        rt::fail(
+                            "access",
+                            format!("static dispatch projects {} but dynamic dispatch {} / {} (depth {})", x, y, z, depth),
+                        );
+                    }
+                    drop(a);
+                    drop(b);
+                    drop(b2);
+                }
+                rt::op_end();
+                if rt::is_aborting() {
+                    return;
+                }
+            }
+        }
+        let k = Constant(42u64);
+        let s = *Access::load(&k);
+        let d = *DynAccess::load(&k);
+        if s != 42 || d != 42 {
+            rt::fail("access", format!("Constant(42) loads {} / {}", s, d));
+            return;
+        }
+    }
+    for i in 0..w(|w| w.accs.len()) {
+        let th = i / 4;
+        op_acc_drop(Ctx { th }, (i % 4) as u8);
+        if rt::is_aborting() {
+            return;
+        }
+    }
+    for i in 0..w(|w| w.caches.len()) {
+        let th = i / 4;
+        op_cache_drop(Ctx { th }, (i % 4) as u8);
+        if rt::is_aborting() {
+            return;
+        }
+    }
+    let _ = ctx;
+}
+
+pub fn extra_owner_of(w: &World, uid: u32) -> Option<String> {
+    for c in w.caches.iter().flatten() {
+        if c.last_uid == uid && uid != 0 {
+            return Some("a cache still holds it".to_string());
+        }
+    }
+    // (a cache that is inside `load` may legitimately release its previous value)
+    for a in w.accs.iter().flatten() {
+        if a.uid == uid && uid != 0 {
+            return Some("a projection guard still denotes it".to_string());
+        }
+    }
+    if w.inflight_acc.iter().any(|(u, _)| *u == uid && uid != 0) {
+        return Some("a projection guard still denotes it".to_string());
+    }
     None
 }
-pub fn extra_owners(_w: &World, _own: &mut BTreeMap<usize, (u32, u32, u32)>) {}
+
+pub fn extra_owners(w: &World, own: &mut BTreeMap<usize, (u32, u32, u32)>, null_guards: &mut u32) {
+    for c in w.caches.iter().flatten() {
+        if c.last_addr != 0 {
+            own.entry(c.last_addr).or_default().1 += 1;
+        }
+    }
+    for a in w.accs.iter().flatten() {
+        if a.addr != 0 {
+            own.entry(a.addr).or_default().2 += 1;
+        } else {
+            *null_guards += 1;
+        }
+    }
+}
 
 pub fn post_checks(_w: &World, _weak: bool) -> Option<(String, String)> {
     None
 }
-pub fn gen_c16(rng: &mut verif_rt::core::Rng, cfg: crate::scen::RunCfg, _thorough: bool) -> crate::scen::Case {
-    let p = crate::program::GenParams::default();
-    crate::scen::Case { cfg, prog: crate::program::gen_program(rng, &p) }
+
+// ---------------------------------------------------------------------------------------------
+// Scenario generators
+// ---------------------------------------------------------------------------------------------
+
+fn choose<T: Copy>(rng: &mut Rng, xs: &[T]) -> T {
+    xs[rng.below(xs.len() as u64) as usize]
 }
-pub fn gen_c17(rng: &mut verif_rt::core::Rng, cfg: crate::scen::RunCfg, _thorough: bool) -> crate::scen::Case {
-    let p = crate::program::GenParams::default();
-    crate::scen::Case { cfg, prog: crate::program::gen_program(rng, &p) }
+
+fn gen_writer_op(rng: &mut Rng, c: u8) -> Op {
+    match rng.below(6) {
+        0 | 1 => Op::Store { c, v: V::New },
+        2 => Op::Store {
+            c,
+            v: V::H(rng.below(2) as u8),
+        },
+        3 => Op::Swap {
+            c,
+            v: V::New,
+            h: rng.below(2) as u8,
+        },
+        4 => Op::Store { c, v: V::Null },
+        _ => Op::Rcu {
+            c,
+            r: RcuSpec::default(),
+            h: 2,
+        },
+    }
+}
+
+/// C16: 1-3 caches (plain, cloned, mapped) per reader thread, loaded while writers store
+/// (fresh values, the same value again, A-B-A through a kept handle, None).
+pub fn gen_c16(rng: &mut Rng, mut cfg: RunCfg, thorough: bool) -> Case {
+    let kind = choose(rng, &crate::scen::ALL_A);
+    let n_conts = 1 + rng.below(2) as usize;
+    let conts: Vec<ContSpec> = (0..n_conts)
+        .map(|_| ContSpec {
+            kind: if rng.below(3) == 0 { choose(rng, &crate::scen::ALL_A) } else { kind },
+            init: Init::New,
+        })
+        .collect();
+    let n_readers = 1 + rng.below(if thorough { 3 } else { 2 }) as usize;
+    let n_writers = 1 + rng.below(2) as usize;
+    let mut threads = vec![ThreadProg::default()];
+    for _ in 0..n_readers {
+        let mut ops = Vec::new();
+        let nk = 1 + rng.below(3) as u8;
+        for k in 0..nk {
+            ops.push(Op::CacheNew {
+                c: rng.below(n_conts as u64) as u8,
+                k,
+            });
+        }
+        let n = 2 + rng.below(if thorough { 7 } else { 5 });
+        for _ in 0..n {
+            match rng.below(10) {
+                0 => ops.push(Op::CacheClone {
+                    k: rng.below(nk as u64) as u8,
+                    k2: rng.below(4) as u8,
+                }),
+                1 => ops.push(Op::CacheDrop { k: rng.below(4) as u8 }),
+                2 => {
+                    let c = rng.below(n_conts as u64) as u8;
+                    ops.push(gen_writer_op(rng, c))
+                }
+                3 => ops.push(Op::RecvDrop),
+                _ => ops.push(Op::CacheLoad { k: rng.below(4) as u8 }),
+            }
+        }
+        threads.push(ThreadProg { ops, top: true });
+    }
+    for _ in 0..n_writers {
+        let mut ops = Vec::new();
+        let n = 1 + rng.below(if thorough { 6 } else { 4 });
+        for _ in 0..n {
+            let c = rng.below(n_conts as u64) as u8;
+            ops.push(gen_writer_op(rng, c));
+        }
+        threads.push(ThreadProg { ops, top: true });
+    }
+    cfg.p_reuse = choose(rng, &[0, 128, 230]);
+    Case {
+        cfg,
+        prog: Program {
+            conts,
+            threads,
+            final_order: rng.below(4) as u8,
+        },
+    }
+}
+
+/// C17: projection guards of depth 1-3, static and dynamic, held across stores.
+pub fn gen_c17(rng: &mut Rng, cfg: RunCfg, thorough: bool) -> Case {
+    let n_conts = 1 + rng.below(2) as usize;
+    let conts: Vec<ContSpec> = (0..n_conts)
+        .map(|_| ContSpec {
+            kind: choose(rng, &crate::scen::ALL_A),
+            init: Init::New,
+        })
+        .collect();
+    let n_readers = 1 + rng.below(if thorough { 3 } else { 2 }) as usize;
+    let n_writers = 1 + rng.below(2) as usize;
+    let mut threads = vec![ThreadProg::default()];
+    for _ in 0..n_readers {
+        let mut ops = Vec::new();
+        let n = 2 + rng.below(if thorough { 8 } else { 6 });
+        for _ in 0..n {
+            let c = rng.below(n_conts as u64) as u8;
+            match rng.below(10) {
+                0 | 1 | 2 | 3 => ops.push(Op::AccLoad {
+                    c,
+                    depth: rng.below(6) as u8,
+                    dynamic: rng.below(2) == 0,
+                    a: rng.below(4) as u8,
+                }),
+                4 | 5 | 6 => ops.push(Op::AccCheck { a: rng.below(4) as u8 }),
+                7 => ops.push(Op::AccDrop { a: rng.below(4) as u8 }),
+                8 => ops.push(gen_writer_op(rng, c)),
+                _ => ops.push(Op::Load {
+                    c,
+                    g: rng.below(4) as u8,
+                }),
+            }
+        }
+        threads.push(ThreadProg { ops, top: true });
+    }
+    for _ in 0..n_writers {
+        let mut ops = Vec::new();
+        let n = 1 + rng.below(if thorough { 6 } else { 4 });
+        for _ in 0..n {
+            let c = rng.below(n_conts as u64) as u8;
+            ops.push(gen_writer_op(rng, c));
+        }
+        threads.push(ThreadProg { ops, top: true });
+    }
+    Case {
+        cfg,
+        prog: Program {
+            conts,
+            threads,
+            final_order: rng.below(4) as u8,
+        },
+    }
 }
